@@ -30,8 +30,11 @@ fn dec_feed(g: &mut InputGenerator, b: u8) -> DecObs {
     }
 }
 
+/// the canonical decoder state read through the accessor. The derived struct hash is deliberately NOT compared:
+/// a field that legitimately differs between instances (an instance number drawn from a global counter, a
+/// statistics field) must not be reported; what counts is what an instance answers
 fn dec_final(g: &InputGenerator) -> ((u8, u8, [u8; 4], u8, u8), u64) {
-    (canon_dec(g.__verif_state()), g.__verif_canonical_hash())
+    (canon_dec(g.__verif_state()), 0)
 }
 
 /// run `seq` (instance, byte) on two fresh decoders; then each projection alone; Some(detail) on a difference
@@ -160,7 +163,13 @@ fn cli_case<C: Autocomplete + Help>(cb: usize, hb: usize, seq: &[(u8, Ev)]) -> O
                 sobs.push(cli_step::<C>(&mut solo, e));
             }
         }
-        let same_final = skey(&solo) == skey(&s[inst as usize]);
+        // hooked state and screen; the derived struct hash is left out (see `dec_final`)
+        let same_final = {
+            let (mut a, mut b) = (skey(&solo), skey(&s[inst as usize]));
+            a.shash = 0;
+            b.shash = 0;
+            a == b
+        };
         if sobs != obs[inst as usize] || !same_final {
             let evs: Vec<String> = seq.iter().filter(|(i, _)| *i == inst).map(|(_, e)| e.render()).collect();
             // first differing step
